@@ -9,7 +9,7 @@ package config
 //@ macro pluginsOK(ps) = forall(j, 0, len(ps), ps[j].tag != 0 && pluginOK(ps[j])) && forall(a, 0, len(ps), forall(b, a + 1, len(ps), pluginRank(dyn(ps[a])) <= pluginRank(dyn(ps[b]))))
 //@ macro headerCfgOK(ifi) = 0 <= ifi.DefaultLifetime && ifi.DefaultLifetime <= secs(9000) && 0 <= ifi.ReachableTime && ifi.ReachableTime <= secs(3600) && 0 <= ifi.RetransmitTimer && ifi.RetransmitTimer <= secs(3600) && prefValid(ifi.Preference)
 //@ macro ifiOK(ifi) = headerCfgOK(ifi) && pluginsOK(ifi.Plugins)
-//@ macro pluginsCfgOK(ps) = forall(j, 0, len(ps), ps[j].tag != 0 && pluginCfgOK(ps[j])) && forall(a, 0, len(ps), forall(b, a + 1, len(ps), pluginRank(dyn(ps[a])) <= pluginRank(dyn(ps[b]))))
+//@ macro pluginsCfgOK(ps) = ps.ref < brk && forall(j, 0, len(ps), ps[j].tag != 0 && ps[j].val < brk && pluginCfgOK(ps[j])) && forall(a, 0, len(ps), forall(b, a + 1, len(ps), pluginRank(dyn(ps[a])) <= pluginRank(dyn(ps[b]))))
 //@ macro ifiCfgOK(ifi) = headerCfgOK(ifi) && pluginsCfgOK(ifi.Plugins)
 
 // C04: the forwarding flag handed to RouterAdvertisement must be a fresh read
@@ -204,6 +204,7 @@ package config
 //@   assigns new heap(config.Interface), new heap(plugin.Prefix), new heap(plugin.Route), new heap(plugin.RDNSS), new heap(plugin.DNSSL), new heap(plugin.MTU), new heap(plugin.LLA), new heap(plugin.CaptivePortal), new heap(plugin.PREF64), new heap(ndp.PREF64), new heap(ndp.CaptivePortal), new mem(*plugin.Prefix), new mem(*plugin.Route), new mem(plugin.Plugin), new mem(netip.Addr), new key(MD_Addr_S_empty), new key(MV_Addr_S_empty), new key(MD_Int_S_empty), new key(MV_Int_S_empty)
 //@   at call parsePlugins(pi, pm, pe) (pps, perr): ghost.plugErr = perr
 //@   ensures E1 [C02]: (result1 == nil) == (!(ifi.Monitor && ifi.Advertise) && (ifi.Monitor || (headerAccept(ifi) && ghost.plugErr == nil)))
+//@   ensures E1a [C02]: result1 == nil ==> !(ifi.Monitor && ifi.Advertise) && (ifi.Monitor || headerAccept(ifi))
 //@   ensures E2 [C02]: result1 == nil && ifi.Monitor ==> result0 != nil && result0.Name == name && result0.Monitor && !result0.Advertise && result0.Verbose == ifi.Verbose && len(result0.Plugins) == 0 && result0.MaxInterval == 0 && result0.DefaultLifetime == 0
 //@   ensures E3 [C02]: result1 == nil && !ifi.Monitor ==> result0 != nil && result0.Name == name && !result0.Monitor && result0.Advertise == ifi.Advertise && result0.Verbose == ifi.Verbose && result0.MaxInterval == maxOf(ifi) && result0.MinInterval == ite(ifi.MinInterval == "" || ifi.MinInterval == "auto", minDefault(maxOf(ifi)), pdVal(ifi.MinInterval)) && result0.Managed == ifi.Managed && result0.OtherConfig == ifi.OtherConfig && result0.ReachableTime == timerOf(ifi.ReachableTime) && result0.RetransmitTimer == timerOf(ifi.RetransmitTimer) && result0.HopLimit == hopOf(ifi) && result0.DefaultLifetime == durSpecVal(ifi.DefaultLifetime, 3 * maxOf(ifi)) && result0.UnicastOnly == ifi.UnicastOnly && result0.Preference == ite(ifi.Preference == "low", 3, ite(ifi.Preference == "high", 1, 0))
 //@   ensures E4 [C05]: result1 == nil && !ifi.Monitor ==> validIntervals(result0.MinInterval, result0.MaxInterval)
@@ -211,3 +212,37 @@ package config
 //@   ensures E6 [C02]: result1 != nil ==> result0 == nil
 //@   opt safety [C02]
 //@   opt frame [C02]
+
+// A group stanza: exactly one of name / names; one Interface per name, in order.
+//@ macro ifaceResultOK(x, nm, raw) = x.Name == nm && headerCfgOK(x) && pluginsCfgOK(x.Plugins) && (raw.Monitor ==> x.Monitor && !x.Advertise) && (!raw.Monitor ==> x.Advertise == raw.Advertise && !x.Monitor && validIntervals(x.MinInterval, x.MaxInterval))
+
+//@ func parseInterfaces
+//@   requires G1: sentinelsOK() && epochOK(epoch)
+//@   assigns new heap(config.Interface), new mem(config.Interface), new mem(string), new heap(plugin.Prefix), new heap(plugin.Route), new heap(plugin.RDNSS), new heap(plugin.DNSSL), new heap(plugin.MTU), new heap(plugin.LLA), new heap(plugin.CaptivePortal), new heap(plugin.PREF64), new heap(ndp.PREF64), new heap(ndp.CaptivePortal), new mem(*plugin.Prefix), new mem(*plugin.Route), new mem(plugin.Plugin), new mem(netip.Addr), new key(MD_Addr_S_empty), new key(MV_Addr_S_empty), new key(MD_Int_S_empty), new key(MV_Int_S_empty)
+//@   loop 1 invariant L1 [C02,C03,C05]: 0 <= rangeindex + 1 && rangeindex + 1 <= len(names) && len(ifis) == rangeindex + 1 && (ifis == nil || fresh(ifis)) && (hasName != hasNames) && (hasName ==> len(names) == 1 && names[0] == ifi.Name) && (hasNames ==> names == ifi.Names)
+//@   loop 1 invariant L2 [C02,C03,C05]: forall(k, 0, len(ifis), ifaceResultOK(ifis[k], names[k], ifi)) && (rangeindex + 1 > 0 ==> !(ifi.Monitor && ifi.Advertise)) && len(names) >= 1
+//@   ensures E1 [C02]: result1 == nil ==> ((ifi.Name != "") != (len(ifi.Names) > 0)) && !(ifi.Monitor && ifi.Advertise)
+//@   ensures E2 [C02]: (ifi.Name != "") == (len(ifi.Names) > 0) ==> result1 != nil
+//@   ensures E3 [C02,C03,C05,C01]: result1 == nil ==> len(result0) == ite(ifi.Name != "", 1, len(ifi.Names)) && forall(k, 0, len(result0), ifaceResultOK(result0[k], ite(ifi.Name != "", ifi.Name, ifi.Names[k]), ifi))
+//@   ensures E4 [C02]: result1 != nil ==> result0 == nil
+//@   opt safety [C02]
+//@   opt frame [C02]
+
+// Parse: strict TOML decode, at least one interface, valid debug address,
+// every interface name unique (C02 G1-G3, I3).
+//@ func Parse
+//@   requires G1: sentinelsOK() && epochOK(epoch)
+//@   assigns everything
+//@   loop 1 invariant P1 [C02,C03]: 0 <= rangeindex1 + 1 && rangeindex1 + 1 <= len(f.Interfaces) && c != nil && fresh(c) && seen != nil && fresh(seen) && len(f.Interfaces) > 0 && (c.Debug.Address == "" || tcpAddrOK(c.Debug.Address)) && (rangeindex1 + 1 > 0 ==> len(c.Interfaces) >= 1)
+//@   loop 1 invariant P2 [C02,C03,C05,C01]: forall(k, 0, len(c.Interfaces), headerCfgOK(c.Interfaces[k]) && pluginsCfgOK(c.Interfaces[k].Plugins) && (c.Interfaces[k].Advertise ==> validIntervals(c.Interfaces[k].MinInterval, c.Interfaces[k].MaxInterval)) && has(seen, c.Interfaces[k].Name))
+//@   loop 1 invariant P3 [C02]: forall(a, 0, len(c.Interfaces), forall(b, a + 1, len(c.Interfaces), c.Interfaces[a].Name != c.Interfaces[b].Name))
+//@   loop 2 invariant P4 [C02,C03]: 0 <= rangeindex2 + 1 && rangeindex2 + 1 <= len(ifis) && 0 <= rangeindex1 + 1 && rangeindex1 + 1 < len(f.Interfaces) && c != nil && fresh(c) && seen != nil && fresh(seen) && len(f.Interfaces) > 0 && (c.Debug.Address == "" || tcpAddrOK(c.Debug.Address)) && (rangeindex1 + 1 > 0 ==> len(c.Interfaces) >= 1) && len(ifis) >= 1
+//@   loop 2 invariant P5 [C02,C03,C05,C01]: forall(k, 0, len(c.Interfaces), headerCfgOK(c.Interfaces[k]) && pluginsCfgOK(c.Interfaces[k].Plugins) && (c.Interfaces[k].Advertise ==> validIntervals(c.Interfaces[k].MinInterval, c.Interfaces[k].MaxInterval)) && has(seen, c.Interfaces[k].Name))
+//@   loop 2 invariant P6 [C02,C03,C05,C01]: forall(k, 0, len(ifis), headerCfgOK(ifis[k]) && pluginsCfgOK(ifis[k].Plugins) && (ifis[k].Advertise ==> validIntervals(ifis[k].MinInterval, ifis[k].MaxInterval)))
+//@   loop 2 invariant P7 [C02]: forall(a, 0, len(c.Interfaces), forall(b, a + 1, len(c.Interfaces), c.Interfaces[a].Name != c.Interfaces[b].Name)) && forall(a, 0, rangeindex2 + 1, forall(b, a + 1, rangeindex2 + 1, ifis[a].Name != ifis[b].Name)) && forall(a, 0, len(c.Interfaces), forall(b, 0, rangeindex2 + 1, c.Interfaces[a].Name != ifis[b].Name))
+//@   loop 2 invariant P8 [C02]: forall(b, 0, rangeindex2 + 1, has(seen, ifis[b].Name))
+//@   ensures E1 [C02]: result1 == nil ==> result0 != nil && len(result0.Interfaces) >= 1 && forall(a, 0, len(result0.Interfaces), forall(b, a + 1, len(result0.Interfaces), result0.Interfaces[a].Name != result0.Interfaces[b].Name))
+//@   ensures E2 [C02,C03,C05,C01,C17]: result1 == nil ==> forall(k, 0, len(result0.Interfaces), headerCfgOK(result0.Interfaces[k]) && pluginsCfgOK(result0.Interfaces[k].Plugins) && (result0.Interfaces[k].Advertise ==> validIntervals(result0.Interfaces[k].MinInterval, result0.Interfaces[k].MaxInterval)))
+//@   ensures E3 [C02]: result1 == nil ==> (result0.Debug.Address == "" || tcpAddrOK(result0.Debug.Address))
+//@   ensures E4 [C02]: result1 != nil ==> result0 == nil
+//@   opt safety [C02]
